@@ -29,6 +29,35 @@ REPO_SCALARS = [
 SAMPLES_INT = [0, 1, -1, 2, -2, 3, 5, 7, -7, 10, 256, 257, -6, 2 ** 31, -(2 ** 31) - 1, 2 ** 63 - 1, 12345678901234567890]
 
 
+class _Remote:
+    """Evaluate a function of the scratch copy of the package under /venv/bin/python (one process per batch)."""
+    def __init__(self, scratch, key):
+        self.scratch, self.key = scratch, key
+        self.cache = {}
+
+    def prefetch(self, inputs):
+        import json
+        import subprocess
+        mod, fn = self.key.split('.')
+        code = ('import json,sys\nsys.path.insert(0,%r)\nimport ECAgent.%s as M\nout=[]\n'
+                'for a in json.load(sys.stdin):\n'
+                '    try:\n        out.append(["normal", M.%s(*a)])\n'
+                '    except Exception as ex:\n        out.append(["raise", type(ex).__name__])\n'
+                'print(json.dumps(out))' % (self.scratch, mod, fn))
+        p = subprocess.run(['/venv/bin/python', '-c', code], input=json.dumps([list(i) for i in inputs]),
+                           capture_output=True, text=True, timeout=120)
+        if p.returncode != 0:
+            raise RuntimeError(p.stderr[-300:])
+        for i, r in zip(inputs, json.loads(p.stdout.strip().splitlines()[-1])):
+            self.cache[tuple(i)] = r
+
+    def __call__(self, *a):
+        kind, v = self.cache[tuple(a)]
+        if kind == 'raise':
+            raise type(v, (Exception,), {})()
+        return v
+
+
 def _ptypes(fn_node):
     out = {}
     for a in fn_node.args.args:
@@ -36,9 +65,13 @@ def _ptypes(fn_node):
     return out
 
 
-def _inputs(ptypes, rng, n):
+def _inputs(ptypes, rng, n, small=False):
     names = list(ptypes)
     pools = [([False, True] if ptypes[k] == 'bool' else SAMPLES_INT[:9]) for k in names]
+    if small:       # functions that build a container of that size natively
+        full = list(itertools.product(*pools))
+        rng.shuffle(full)
+        return names, full[:n]
     full = list(itertools.product(*pools))
     rng.shuffle(full)
     out = full[:n]
@@ -107,17 +140,9 @@ def run(verbose=False, seed=7, per_fn=40):
         native = importlib.util.module_from_spec(spec)
         spec.loader.exec_module(native)
         targets = [(f'Xcases.{n}', _ptypes(fi.node), getattr(native, n)) for n, fi in prog.module_funcs['Xcases'].items()]
-        if os.environ.get('VERIF_XCHECK_REPO', '1') == '1':
-            sys.path.insert(0, scratch)
-            for key, pt in REPO_SCALARS:
-                try:
-                    spec2 = importlib.util.spec_from_file_location(
-                        'verif_x_' + key.split('.')[0], os.path.join(scratch, 'ECAgent', key.split('.')[0] + '.py'))
-                    mod = importlib.util.module_from_spec(spec2)
-                    spec2.loader.exec_module(mod)
-                    targets.append((key, pt, getattr(mod, key.split('.')[1])))
-                except Exception as ex:      # the native layer's interpreter has the dependencies, this one may not
-                    res['skipped'].append(f'{key}: native import failed under this interpreter ({type(ex).__name__})')
+        for key, pt in REPO_SCALARS:
+            # the package imports numpy / pandas: its scalar functions are evaluated by the native layer's interpreter
+            targets.append((key, pt, _Remote(scratch, key)))
         rng = random.Random(seed)
         for key, ptypes, fn in targets:
             ckey = key + '#xcheck'
@@ -133,7 +158,14 @@ def run(verbose=False, seed=7, per_fn=40):
                 res['skipped'].append(f'{key}: {rep.error}')
                 continue
             res['functions'] += 1
-            names, inputs = _inputs(ptypes, rng, per_fn)
+            names, inputs = _inputs(ptypes, rng, per_fn, small=key.endswith('_small'))
+            if isinstance(fn, _Remote):
+                try:
+                    fn.prefetch(inputs)
+                except Exception as ex:
+                    res['skipped'].append(f'{key}: native evaluation failed ({type(ex).__name__}: {ex})')
+                    res['functions'] -= 1
+                    continue
             for inp in inputs:
                 try:
                     expected = ('normal', fn(*inp))
@@ -174,6 +206,24 @@ def run(verbose=False, seed=7, per_fn=40):
                     if r2 == z3.sat:
                         bad = f'engine admits a result different from CPython\'s {expected[1]!r}'
                         break
+                if bad is None and feasible == 0:
+                    # the engine turns possible run-time errors (index, key, division by zero ...) into `safe:` proof
+                    # obligations and continues under their negation: an input on which such an obligation fails is
+                    # not silently dropped, it is reported by that obligation
+                    for ob in rep.obs:
+                        if '/safe:' not in ob.name:
+                            continue
+                        s = z3.Solver()
+                        s.set('timeout', 5000)
+                        s.add(ob.hyps)
+                        for n_, v_ in zip(names, inp):
+                            s.add(z3.Const(n_, z3.BoolSort() if isinstance(v_, bool) else z3.IntSort()) ==
+                                  (z3.BoolVal(v_) if isinstance(v_, bool) else z3.IntVal(v_)))
+                        s.add(z3.Not(ob.goal))
+                        if s.check() == z3.sat:
+                            feasible = -1
+                            res['by_safe_obligation'] = res.get('by_safe_obligation', 0) + 1
+                            break
                 if bad is None and feasible == 0:
                     bad = f'no feasible path for this input (CPython: {expected})'
                 if bad:
